@@ -474,7 +474,15 @@ func setMapField(field reflect.Value, fieldType reflect.Type, isPtr bool, mapArr
 // setFieldFromString sets a struct field from a string default value.
 func setFieldFromString(field reflect.Value, fieldType reflect.Type, s string) error {
 	if fieldType.Kind() == reflect.Ptr {
-		fieldType = fieldType.Elem()
+		// An optional field: the Set* calls below panic on a pointer-kinded
+		// value, so parse the default into a fresh element and point at it.
+		elemType := fieldType.Elem()
+		ptr := reflect.New(elemType)
+		if err := setFieldFromString(ptr.Elem(), elemType, s); err != nil {
+			return err
+		}
+		field.Set(ptr)
+		return nil
 	}
 	switch fieldType.Kind() {
 	case reflect.String:
